@@ -72,26 +72,31 @@ func VerifC20_Sweep() {
 	installWorld()
 	verifrt.InstallDirListing()
 	w := newWorld(true, config.CRLFetchModeActively, false, config.SignatureValidationModeVerify)
+	// the work_dir itself may be named like a temporary artefact: it is never an artefact of its own sweep
+	B := []string{"/work", "/data/crl_cache_tmp"}[verifrt.Choose(2)]
+	w.cfg.WorkDir = B
+	verifrt.Disk[B] = &verifrt.Dir{Exists: true}
 	mk := func(p string, file bool) { verifrt.Disk[p] = &verifrt.Dir{Exists: true, IsFile: file} }
-	mk("/work/0123456789abcdef0123456789abcdef0123456789abcdef0123456789abcdef", false)
-	mk("/work/crl_1b4e28ba-2fa1-11d2-883f-0016d3cca427_tmp", false)
-	verifrt.Disk["/work/crl_1b4e28ba-2fa1-11d2-883f-0016d3cca427_tmp"].HasFiles = true // a moved-aside database
-	mk("/work/crl_7d444840-9dc0-11d1-b245-5ffdce74fad2_tmp", false)
-	verifrt.Disk["/work/crl_7d444840-9dc0-11d1-b245-5ffdce74fad2_tmp"].HasFiles = true // a staging database
-	mk("/work/crl_12345_tmp", true)
-	mk("/work/crl_tmp", true)
-	mk("/work/crl_x_tmp.bak", true)
-	mk("/work/mycrl_a_tmp", true)
-	mk("/work/notes.txt", true)
-	mk("/work/sub", false)
-	mk("/work/sub/crl_nested_tmp", true)
+	mk(B+"/0123456789abcdef0123456789abcdef0123456789abcdef0123456789abcdef", false)
+	mk(B+"/crl_1b4e28ba-2fa1-11d2-883f-0016d3cca427_tmp", false)
+	verifrt.Disk[B+"/crl_1b4e28ba-2fa1-11d2-883f-0016d3cca427_tmp"].HasFiles = true // a moved-aside database
+	mk(B+"/crl_7d444840-9dc0-11d1-b245-5ffdce74fad2_tmp", false)
+	verifrt.Disk[B+"/crl_7d444840-9dc0-11d1-b245-5ffdce74fad2_tmp"].HasFiles = true // a staging database
+	mk(B+"/crl_12345_tmp", true)
+	mk(B+"/crl_tmp", true)
+	mk(B+"/crl_x_tmp.bak", true)
+	mk(B+"/mycrl_a_tmp", true)
+	mk(B+"/notes.txt", true)
+	mk(B+"/sub", false)
+	mk(B+"/sub/crl_nested_tmp", true)
 	verifrt.MapOrders(true) // the directory is listed in any order
 	w.repo.DeleteTempFilesIfExist()
 	verifrt.MapOrders(false)
 	ex := func(p string) bool { d := verifrt.Disk[p]; return d != nil && d.Exists }
-	verifrt.Assert(!ex("/work/crl_1b4e28ba-2fa1-11d2-883f-0016d3cca427_tmp") && !ex("/work/crl_7d444840-9dc0-11d1-b245-5ffdce74fad2_tmp") && !ex("/work/crl_12345_tmp"), "all temporary artefacts are removed at startup (databases and files)")
-	verifrt.Assert(ex("/work/0123456789abcdef0123456789abcdef0123456789abcdef0123456789abcdef"), "a live store is never swept")
-	verifrt.Assert(ex("/work/crl_tmp") && ex("/work/crl_x_tmp.bak") && ex("/work/mycrl_a_tmp") && ex("/work/notes.txt"), "foreign files with similar names are left alone")
-	verifrt.Assert(ex("/work/sub") && ex("/work/sub/crl_nested_tmp"), "nothing below a sub-directory is touched")
+	verifrt.Assert(!ex(B+"/crl_1b4e28ba-2fa1-11d2-883f-0016d3cca427_tmp") && !ex(B+"/crl_7d444840-9dc0-11d1-b245-5ffdce74fad2_tmp") && !ex(B+"/crl_12345_tmp"), "all temporary artefacts are removed at startup (databases and files)")
+	verifrt.Assert(ex(B+"/0123456789abcdef0123456789abcdef0123456789abcdef0123456789abcdef"), "a live store is never swept")
+	verifrt.Assert(ex(B+"/crl_tmp") && ex(B+"/crl_x_tmp.bak") && ex(B+"/mycrl_a_tmp") && ex(B+"/notes.txt"), "foreign files with similar names are left alone")
+	verifrt.Assert(ex(B+"/sub") && ex(B+"/sub/crl_nested_tmp"), "nothing below a sub-directory is touched")
+	verifrt.Assert(ex(B), "the work_dir itself survives its start-up sweep, whatever its name")
 	verifrt.Reach("swept")
 }
